@@ -332,6 +332,71 @@ fn typechecks(text: &str) -> Result<(), String> {
     }
 }
 
+/// Projects for hover in a package of several files (every file has imports, so queries go
+/// through the package-aware path). Binders `v_*` are annotated; the files are laid out so that the
+/// same positions of two files hold binders of different types.
+fn hover_projects() -> Vec<(&'static str, Vec<(&'static str, &'static str)>)> {
+    vec![
+        (
+            "two-files-same-positions",
+            vec![
+                ("main.gom", "package Main\nimport Lib\n\nfn main() -> unit {\n    let v_a: int32 = Lib::one();\n    let v_b: bool = v_a > 0;\n    string_println(int32_to_string(v_a) + bool_to_string(v_b))\n}\n"),
+                ("other.gom", "package Main\nimport Lib\n\nfn othr() -> unit {\n    let v_a: string = \"text\";\n    let v_b: int32 = Lib::one();\n    string_println(v_a + int32_to_string(v_b))\n}\n"),
+                ("Lib/lib.gom", "package Lib\n\nfn one() -> int32 { 1 }\n"),
+            ],
+        ),
+        (
+            "three-files-and-a-library-of-two",
+            vec![
+                ("main.gom", "package Main\nimport Lib\n\nfn main() -> unit {\n    let v_p: Lib::P = Lib::mk(1);\n    let v_n: int32 = helper(v_p);\n    string_println(int32_to_string(v_n + util()))\n}\n"),
+                ("help.gom", "package Main\nimport Lib\n\nfn helper(v_q: Lib::P) -> int32 {\n    let v_p: string = Lib::name();\n    let v_n: bool = true;\n    string_len(v_p) + Lib::geta(v_q)\n}\n"),
+                ("util.gom", "package Main\nimport Lib\n\nfn util() -> int32 {\n    let v_p: (int32, bool) = (1, true);\n    let v_n: Vec[int32] = vec_new();\n    v_p.0 + vec_len(v_n)\n}\n"),
+                ("Lib/a.gom", "package Lib\n\nstruct P { a: int32 }\nfn mk(k: int32) -> P {\n    let v_p: P = P { a: k };\n    v_p\n}\n"),
+                ("Lib/b.gom", "package Lib\n\nfn geta(v_p: P) -> int32 {\n    let v_n: int32 = v_p.a;\n    v_n\n}\nfn name() -> string {\n    let v_s: string = \"n\";\n    v_s\n}\n"),
+            ],
+        ),
+    ]
+}
+
+/// `let v_x: T =` / `(v_x: T` declarations of a file: name -> declared type (spaces removed)
+fn declared_binders(text: &str) -> std::collections::BTreeMap<String, String> {
+    let mut m = std::collections::BTreeMap::new();
+    let bytes = text.as_bytes();
+    let mut i = 0;
+    while let Some(pos) = text[i..].find("v_") {
+        let s = i + pos;
+        let mut e = s;
+        while e < bytes.len() && (bytes[e].is_ascii_alphanumeric() || bytes[e] == b'_') {
+            e += 1;
+        }
+        let name = &text[s..e];
+        let rest = &text[e..];
+        if let Some(after) = rest.strip_prefix(": ") {
+            // the annotation ends at ` =`, or at the `)` / `,` that closes a parameter
+            let mut depth = 0i32;
+            let mut end = after.len();
+            for (k, c) in after.char_indices() {
+                match c {
+                    '(' | '[' => depth += 1,
+                    ')' | ']' if depth > 0 => depth -= 1,
+                    ')' | ',' if depth == 0 => {
+                        end = k;
+                        break;
+                    }
+                    '=' if depth == 0 => {
+                        end = k;
+                        break;
+                    }
+                    _ => {}
+                }
+            }
+            m.entry(name.to_string()).or_insert_with(|| squash(after[..end].trim()));
+        }
+        i = e;
+    }
+    m
+}
+
 pub struct QueryAgree;
 
 impl Family for QueryAgree {
@@ -342,13 +407,57 @@ impl Family for QueryAgree {
         &["C20"]
     }
     fn rule(&self) -> &'static str {
-        "on the 11 complete seed programs: hover at every character of every occurrence of a `v_*` binder or use must report the binder's declared type; at every `x.`/`Path::` cursor each offered completion, inserted (methods with synthesised arguments), must type-check; distinct = distinct (seed, occurrence) / (seed, cursor, item)"
+        "on the 11 complete seed programs: hover at every character of every occurrence of a `v_*` binder or use must report the binder's declared type; at every `x.`/`Path::` cursor each offered completion, inserted (methods with synthesised arguments), must type-check; 2 projects whose packages have several files (same binder names and positions, different types): hover on every annotated binder and its uses in every file must report the file's own declaration; distinct = distinct (seed, occurrence) / (seed, cursor, item)"
     }
     fn cases(&self, _tier: Tier) -> Box<dyn Iterator<Item = Value> + '_> {
-        Box::new((0..SEEDS.len()).map(|i| json!({"seed": i})))
+        Box::new((0..SEEDS.len()).map(|i| json!({"seed": i})).chain((0..hover_projects().len()).map(|i| json!({"project": i}))))
     }
     fn run(&self, case: &Value, _ctx: &mut Ctx) -> Report {
         let mut rep = Report::default();
+        if let Some(pi) = case["project"].as_u64() {
+            // hover in every file of every package of a project laid out on disk
+            let (pname, files) = hover_projects()[pi as usize].clone();
+            let root = _ctx.scratch.fresh_dir("hoverproj");
+            for (rel, text) in &files {
+                let p = root.join(rel);
+                std::fs::create_dir_all(p.parent().unwrap()).ok();
+                std::fs::write(&p, text).ok();
+            }
+            let mut checks = 0u64;
+            for (rel, text) in &files {
+                let path = root.join(rel);
+                let declared = declared_binders(text);
+                for t in lexer::lex(text) {
+                    let Some(want) = declared.get(t.text) else { continue };
+                    let (s, e): (usize, usize) = (u32::from(t.range.start()) as usize, u32::from(t.range.end()) as usize);
+                    for off in s..e {
+                        let (line, col) = line_col(text, off);
+                        checks += 1;
+                        let got = match guarded(|| hover_type(&path, text, line, col)) {
+                            Ok(Ok(s)) => squash(&s),
+                            Ok(Err(e)) => format!("<err:{}>", e),
+                            Err(p) => format!("<panic:{}>", p),
+                        };
+                        rep.more_keys.push(fnv(&format!("{}|{}|hover|{}", pname, rel, off)));
+                        // a path-qualified type may be printed with or without its package
+                        let same = got == *want || want.rsplit("::").next() == Some(got.as_str()) || got.rsplit("::").next() == Some(want.as_str());
+                        if !same {
+                            rep.findings.push(Finding {
+                                property: "C20",
+                                class: if got.starts_with("<panic") { "query.panic.hover".into() } else { "hover.type-differs".into() },
+                                site: format!("project={};file={};binder={};want={};got={}", pname, rel, t.text, want, got),
+                                detail: format!("project {} file {} hover at {}:{} on `{}`: declared {} but hover says {}", pname, rel, line, col, t.text, want, got),
+                                replay: json!({"kind": "query-project", "files": files, "file": rel, "line": line, "col": col, "expected": want}),
+                            });
+                            break;
+                        }
+                    }
+                }
+            }
+            rep.sub_evaluations = checks;
+            rep.outcome = Some(format!("project:{}", pname));
+            return rep;
+        }
         let si = case["seed"].as_u64().unwrap() as usize;
         let (text, cursors) = seed_text(si);
         let path = Path::new("dummy");
